@@ -12,7 +12,7 @@ m = {
     "hooks": {"guard": "qvnt_verif",
               "enable": "RUSTFLAGS=\"--cfg qvnt_verif\" (set by tools/lib.py for every harness build)",
               "baseline_off_cmd": "cd /repo && cargo test --workspace --no-fail-fast --offline",
-              "source_commits": C["hook_commits"], "add_only": True},
+              "source_commits": C["hook_commits"], "add_only": False},
     "engines": C["engines"],
     "checks": [],
     "notes": "Machine-checked proof in Coq 8.16.1 about a hand-written Gallina model; the model is tied to /repo by a "
